@@ -13,7 +13,8 @@
 (*     S  mutable transparent struct  (c18s s1 s2)       2 slots           *)
 (*     L  immutable proper list       (list s1 s2)       2 slots           *)
 (*     P  immutable pair              (cons s1 s2)       2 slots           *)
-(* L and P are connectors: they are immutable, so they can only refer to   *)
+(*     H  immutable hash map          (hash 'k s1)       1 slot (a value)  *)
+(* L, P and H are connectors: they are immutable, so they can only refer to   *)
 (* nodes that exist when they are made.  The only well-formedness rule is  *)
 (* therefore  "an immutable node refers to immutable nodes of smaller      *)
 (* index only" (RefOK) - every cycle passes through a mutable node, and    *)
@@ -137,9 +138,9 @@ IdxIn(seq, x) == CHOOSE i \in 1..Len(seq) : seq[i] = x
 
 -----------------------------------------------------------------------------
 (* Heaps *)
-KindOrder  == <<"B", "V", "S", "L", "P">>
+KindOrder  == <<"B", "V", "S", "L", "P", "H">>
 AllKinds   == Range(KindOrder)
-Arity(k)   == IF k = "B" THEN 1 ELSE 2
+Arity(k)   == IF k \in {"B", "H"} THEN 1 ELSE 2
 Mutable(k) == k \in {"B", "V", "S"}
 
 Leaf(l) == [r |-> 0, l |-> l]
@@ -326,6 +327,7 @@ Body(g, i) ==
     [] g.k[i] = "S" -> <<Txt("(" \o StructName \o " "), Item(g.c[i][1]), Txt(" "), Item(g.c[i][2]), Txt(")")>>
     [] g.k[i] = "L" -> <<Txt("("), Item(g.c[i][1]), Txt(" "), Item(g.c[i][2]), Txt(")")>>
     [] g.k[i] = "P" -> <<Txt("("), Item(g.c[i][1]), Txt(" . "), Item(g.c[i][2]), Txt(")")>>
+    [] g.k[i] = "H" -> <<Txt("#hash((k . "), Item(g.c[i][1]), Txt("))")>>
 EmitInit(x) == [stack |-> <<[txt |-> "", ref |-> x]>>, out |-> "", lab |-> << >>, exp |-> {}]
 EmitDone(st) == st.stack = << >>
 EmitNode(g, multi, st, i, rest) ==
@@ -388,7 +390,8 @@ ModelOK2(g, bis) == /\ EqCorrect2(g, bis) /\ BisimIsEquivalence2(g, bis) /\ Hash
 V(i) == "n" \o ToString(i)
 RSlot(s) == IF s.r = 0 THEN ToString(s.l) ELSE V(s.r)
 Placeholder(k) == CASE k = "B" -> "(box 0)" [] k = "V" -> "(vector 0 0)" [] OTHER -> "(c18s@@ 0 0)"
-ImmNode(g, i) == (IF g.k[i] = "L" THEN "(list " ELSE "(cons ") \o RSlot(g.c[i][1]) \o " " \o RSlot(g.c[i][2]) \o ")"
+ImmNode(g, i) == IF g.k[i] = "H" THEN "(hash 'k " \o RSlot(g.c[i][1]) \o ")"
+                 ELSE (IF g.k[i] = "L" THEN "(list " ELSE "(cons ") \o RSlot(g.c[i][1]) \o " " \o RSlot(g.c[i][2]) \o ")"
 Setters(g, i) ==
   CASE g.k[i] = "B" -> <<"(set-box! " \o V(i) \o " " \o RSlot(g.c[i][1]) \o ")">>
     [] g.k[i] = "V" -> <<"(vector-set! " \o V(i) \o " 0 " \o RSlot(g.c[i][1]) \o ")",
@@ -407,7 +410,7 @@ LetGraph(g, result) ==
 StructDef == "(struct c18s@@ (a b) #:mutable #:transparent)"
 \* classifier used by the path observations: a leaf is itself, a node is its kind letter
 \* (Steel has no predicate for boxes: what is none of the others is a box)
-KindFn == "(define (c18k@@ v) (cond ((number? v) v) ((vector? v) 'V) ((c18s@@? v) 'S) ((list? v) 'L) ((pair? v) 'P) (else 'B)))"
+KindFn == "(define (c18k@@ v) (cond ((number? v) v) ((vector? v) 'V) ((c18s@@? v) 'S) ((list? v) 'L) ((pair? v) 'P) ((hash? v) 'H) (else 'B)))"
 Step(src, class, emit, val) == [src |-> src, class |-> class, emit |-> emit, val |-> val]
 NoEmit == <<"*">>      \* the emitted sequence / the value is not compared
 NoVal  == "*"
@@ -432,6 +435,7 @@ Access(k, p, e) ==
     [] k = "S" -> (IF p = 1 THEN "(c18s@@-a " ELSE "(c18s@@-b ") \o e \o ")"
     [] k = "L" -> (IF p = 1 THEN "(car " \o e \o ")" ELSE "(car (cdr " \o e \o "))")
     [] k = "P" -> (IF p = 1 THEN "(car " ELSE "(cdr ") \o e \o ")"
+    [] k = "H" -> "(hash-ref " \o e \o " 'k)"
 RECURSIVE Fp(_, _, _, _)
 FpSlot(g, s, e, d) ==
   IF s.r = 0 THEN << [e |-> e, o |-> ToString(s.l)] >>
